@@ -6,7 +6,8 @@ PROPERTY = 'C01'
 LEAN_MODULES = ['YatimlModel.Props.C01']
 THEOREMS = ['YatimlModel.C01.' + t for t in [
     'C01_recognised_type_admitted', 'C01_root_tag', 'C01_scalar_exact_kind', 'checkAttributes_none',
-    'C01_any_is_plain', 'C01_empty_document', 'C01_every_constructor_call_typed']] + ['YatimlModel.recognize_admits',
+    'C01_any_is_plain', 'C01_empty_document', 'C01_every_constructor_call_typed', 'C01_loaded_value_conforms']] + [
+    'YatimlModel.processNode_tagged', 'YatimlModel.construct_conforms'] + ['YatimlModel.recognize_admits',
                                                   'YatimlModel.construct_quiet']
 RULE = ('generated class models (typed signatures, hierarchies, enums, string-likes, Union/Optional, '
         'List/Dict and abstract variants, Any, date, Path, bool_union_fix, permissive custom '
@@ -20,6 +21,37 @@ ASSUMPTIONS = ['Python fills omitted optional parameters with their defaults (a 
 
 def translate(ctx):
     return []
+
+
+def env_wf(model):
+    """the hypothesis `EnvWF` of `C01_loaded_value_conforms`, evaluated on the real classes: no class is
+    called Path; a class reachable through registered direct-subclass steps has the start in its MRO;
+    MROs are transitive"""
+    regs = [c for c in model.registered]
+    names = {c.__name__: c for c in regs}
+    if 'Path' in names:
+        return 'a class called Path'
+    anc = {c.__name__: [b.__name__ for b in c.__mro__[1:]] for c in regs}
+    bases = {c.__name__: [b.__name__ for b in c.__bases__] for c in regs}
+    for c in names:
+        # descendants through registered direct-subclass steps
+        seen, todo = {c}, [c]
+        while todo:
+            x = todo.pop()
+            for d in names:
+                if x in bases[d] and d not in seen:
+                    seen.add(d)
+                    todo.append(d)
+        for d in seen:
+            if d != c and c not in anc[d]:
+                return '{} descends from {} but does not have it in its MRO'.format(d, c)
+    for e in names:
+        for d in anc[e]:
+            if d in names:
+                for c in anc[d]:
+                    if c not in anc[e]:
+                        return 'MRO of {} lacks {} (an ancestor of its ancestor {})'.format(e, c, d)
+    return None
 
 
 def explore(ctx):
@@ -44,6 +76,10 @@ def explore(ctx):
                 pass
         cases.append(c)
         LC.record_distribution(ctx, c)
+        bad = env_wf(c.model)
+        ctx.count('envwf_checked')
+        if bad:
+            ctx.disagree('the class table does not satisfy EnvWF: ' + bad, L.describe(c))
         by = {x['name']: x for x in c.spec}
         ok = c.real_out[0] == 'ok'
         ctx.case((c.text, repr(c.doc_type), repr([x['name'] for x in c.spec])),
